@@ -20,9 +20,12 @@
     C02_reports                reported (UE IP, TEID, UPF IP) = what the network encoded (C12)                    — full for spec-built items
     C02_one_psi                one PDU session identity (1..15) in the 5GSM header, the UL NAS TRANSPORT IE and the NGAP response
                                — full (false before the F14 repair a0d23df: `uint8(supi mod 10^4)` vs `supi mod 10^4`)
-  Not proved: the end-to-end statement "the judge accepts the model's whole transcript" (`C02_accepted_statement`); it
-  needs the composite APER round trip of C04 and the NAS parse lemmas of all seven constructors composed along the
-  conversation. The judge is run on every real transcript instead (spec column of the `convo` op).
+  The end-to-end statement "the judge accepts the model's whole transcript" (`C02_accepted_statement` below) is proved in the later
+  modules of C02 — Props/C02Steps, C02Life, C02History, C02Script (judge level), C02Accepted (one UE, reads as hypotheses),
+  C02AcceptedOne (one UE, downlink specified), C02AcceptedN (`C02_accepted_n`: N ≤ 10 000 UEs, arbitrary repetition counts,
+  the downlink side built with the specification encoders, Spec/AmfDownlink.lean) and C02Statement
+  (`C02_accepted_statement_spec`: the statement below instantiated, with a kernel-checked well-formed witness).
+  The judge is also run on every real transcript (spec column of the `convo` op).
 -/
 import Stgutg.Proofs.Emulator
 import Stgutg.Proofs.EmulatorWitness
@@ -316,12 +319,14 @@ theorem C02_protected_step_accepted (P : Prims) (hP : PrimsOk P) (sec : UeSec) (
     · omega
     · have := hused x hx; omega
 
-/-! ### the end-to-end statement (not proved as stated; at judge level — the whole uplink script of a UE, for every history —
-    it is `C02_script_accepted` in Props/C02Script.lean, built on Props/C02Steps.lean, C02Life.lean, C02History.lean) -/
+/-! ### the end-to-end statement (proved with the downlink side specified, for N ≤ 10 000 UEs and arbitrary counts, as
+    `C02_accepted_n` in Props/C02AcceptedN.lean; at judge level — the whole uplink script of a UE, for every history — it is
+    `C02_script_accepted` in Props/C02Script.lean, built on Props/C02Steps.lean, C02Life.lean, C02History.lean) -/
 
 /-- what C02 asks of the model as a whole: for every configuration and every AMF behaviour `dl` that answers as a conformant
-    AMF does, the reference AMF judges the model's transcript `accept`. Its proof needs the composite APER round trip (C04)
-    and the NAS parse lemmas composed along the whole conversation; the check evaluates the judge on real transcripts. -/
+    AMF does, the reference AMF judges the model's transcript `accept`. `C02_accepted_statement_spec` (Props/C02Statement.lean)
+    proves it for `dl` = the specified downlink of Spec/AmfDownlink.lean (through `C02_accepted_n`, Props/C02AcceptedN.lean);
+    the check also evaluates the judge on real transcripts. -/
 def C02_accepted_statement (P : Prims) (E : Model.Convert.Ext) (dl : Spec.Amf.Cfg → List Spec.Amf.Choice → List Bytes)
     (toSpec : Cfg → Spec.Amf.Cfg) (WF : Cfg → List Spec.Amf.Choice → Prop) : Prop :=
   ∀ cfg chs, WF cfg chs →
